@@ -237,6 +237,81 @@ def run_shard(binp, prop, cases, maxlen, seed, outdir, name, guards=0, isolate=F
             'crash': rep + '.crash' if os.path.exists(rep + '.crash') else None, 'wall': time.time() - t0}
 
 
+FUZZ_PROPS = {'C01', 'C02', 'C06', 'C07', 'C10', 'C16', 'C18'}
+FUZZ_CONFIGS = ['u8_Vu8_u32a4__A0000', 'u8_Vu16_u8_VB5__A0000', 'u8_VTracked_u16_FTracked__A0000', 'Fu8_u8a4_Fu8__A0000',
+                'u32_sza8_Vfloata8_sza8_Vfloata16__A0000', 'u8_Vu8_Tracked__A0000', 'FTrackedMO_TrackedMO__A0000', 'u16_Vu8_Fdoublea16__A0000']
+FUZZ_FLAGS = ['-fsanitize=fuzzer-no-link,address,undefined', '-fno-sanitize=alignment,nonnull-attribute', '-fno-sanitize-recover=undefined']
+
+
+def build_fuzz(cfgs):
+    """libFuzzer binaries (coverage-instrumented objects) for a few configurations"""
+    b = Builder(tag='fuzz')
+    flags = BASE_FLAGS + FUZZ_FLAGS + ['-I' + os.path.join(VERIF, 'harness'), '-I' + os.path.join(REPO, 'src')]
+    eng = os.path.join(b.dir, 'engine_fuzz.o')
+    if not os.path.exists(eng):
+        r = sh([CXX] + flags + ['-c', os.path.join(VERIF, 'harness', 'engine_fuzz.cpp'), '-o', eng])
+        if r.returncode != 0:
+            raise RuntimeError(r.stdout)
+
+    def one(c):
+        binp = os.path.join(b.dir, 'fuzz_' + c['name'])
+        if os.path.exists(binp):
+            return binp, ''
+        src = binp + '.cpp'
+        open(src, 'w').write(cfggen.emit_tu(c))
+        r = sh([CXX] + flags + ['-c', src, '-o', binp + '.o'])
+        if r.returncode != 0:
+            return None, r.stdout
+        r = sh([CXX] + BASE_FLAGS + ['-fsanitize=fuzzer,address,undefined', eng, binp + '.o', '-o', binp + '.tmp'])
+        if r.returncode != 0:
+            return None, r.stdout
+        os.replace(binp + '.tmp', binp)
+        return binp, ''
+
+    with ThreadPoolExecutor(JOBS) as ex:
+        res = list(ex.map(one, cfgs))
+    return b, res
+
+
+def run_fuzz_campaign(binp, name, prop, seed, runs, outdir, guards, with_seeds):
+    """one libFuzzer campaign; returns dict(stats, crash replay path or None, soft replay path or None)"""
+    tag = '%s_%s' % (name, 'seeded' if with_seeds else 'empty')
+    corp = os.path.join(outdir, 'corpus_' + tag)
+    art = os.path.join(outdir, 'art_' + tag) + '/'
+    os.makedirs(corp, exist_ok=True)
+    os.makedirs(art, exist_ok=True)
+    stats = os.path.join(outdir, tag + '.fuzz.json')
+    rep = os.path.join(outdir, tag + '.fuzz.replay')
+    env = dict(RUN_ENV, VF_PROP=str(prop), VF_GUARDS=str(guards), VF_STATS=stats, VF_REPLAY_OUT=rep)
+    if with_seeds:
+        env['VF_MAKE_SEEDS'] = corp
+    cmd = [binp, '-runs=%d' % runs, '-seed=%d' % (seed % 1000000 + 1), '-max_len=1024', '-entropic=0', '-artifact_prefix=' + art,
+           '-print_final_stats=1', '-verbosity=0', corp]
+    r = subprocess.run(cmd, stdout=subprocess.PIPE, stderr=subprocess.STDOUT, text=True, env=env)
+    st = None
+    if os.path.exists(stats):
+        try:
+            st = json.load(open(stats))
+        except Exception:
+            st = None
+    out = {'name': tag, 'rc': r.returncode, 'stats': st, 'replay': None, 'tail': r.stdout[-3000:]}
+    if r.returncode != 0:
+        if os.path.exists(rep):
+            out['replay'] = rep
+        else:
+            # hard crash: only crash-/leak- artifacts count (slow-unit / timeout / oom are load noise)
+            arts = [f for f in os.listdir(art) if f.startswith('crash-') or f.startswith('leak-')]
+            if arts:
+                dump = os.path.join(outdir, tag + '.dump.replay')
+                env2 = dict(env, VF_DUMP=dump)
+                env2.pop('VF_MAKE_SEEDS', None)
+                subprocess.run([binp, os.path.join(art, arts[0])], stdout=subprocess.PIPE, stderr=subprocess.STDOUT, env=env2)
+                if os.path.exists(dump):
+                    out['replay'] = dump
+    shutil.rmtree(corp, ignore_errors=True)
+    return out
+
+
 def replay_once(binp, path, guards=0):
     r = subprocess.run([binp, '--replay', path, '--guards', str(guards)], stdout=subprocess.PIPE, stderr=subprocess.STDOUT,
                        text=True, env=RUN_ENV, timeout=600)
@@ -297,6 +372,8 @@ def run_history_property(pid, tier, seed, rule, level='exploration', extra_cov=N
     n = prop_num(pid)
     qc, ql, tc, tl = BUDGET[pid]
     cases, maxlen = (qc, ql) if tier == 'quick' else (tc, tl)
+    if os.environ.get('VERIF_CASES'):  # experimentation only (sensitivity runs); registered commands never set it
+        cases = int(os.environ['VERIF_CASES'])
     pool = pool_for(pid, tier, seed)
     b = Builder()
     built = b.build_all(pool)
@@ -352,6 +429,44 @@ def run_history_property(pid, tier, seed, rule, level='exploration', extra_cov=N
         else:
             print('FLAKY-NOT-REPORTED: %s replay failed %d/3 times' % (c['name'], fails))
 
+    # second engine (thorough tier of the history properties): coverage-guided libFuzzer campaigns
+    fuzz_summary = None
+    if tier == 'thorough' and pid in FUZZ_PROPS:
+        byname = {c['name']: c for c in cfggen.core_pool()}
+        fcfgs = [byname[nm] for nm in FUZZ_CONFIGS if nm in byname and (n != 6 or 'tracked' in byname[nm]['tags'])]
+        fb, fres = build_fuzz(fcfgs)
+        runs = int(os.environ.get('VERIF_FUZZ_RUNS', '120000'))
+        jobs = []
+        for c, (fbin, flog) in zip(fcfgs, fres):
+            if fbin:
+                jobs.append((fbin, c, True))
+                jobs.append((fbin, c, False))
+        with ThreadPoolExecutor(JOBS) as ex:
+            fouts = list(ex.map(lambda j: run_fuzz_campaign(j[0], j[1]['name'], n, shard_seed(seed, j[1]['name'], pid + 'fuzz'), runs, outdir, guards, j[2]), jobs))
+        fuzz_summary = {'engine': 'libFuzzer (-entropic=0, max_len=1024, coverage-instrumented configuration TUs)', 'campaigns': len(fouts), 'runs_per_campaign': runs,
+                        'executions': 0, 'distinct_nontrivial': 0, 'corpora': 'each configuration once from 5 small valid seed programs and once from an empty corpus', 'samples': []}
+        for (fbin, c, seeded), fo in zip(jobs, fouts):
+            if fo['stats']:
+                fuzz_summary['executions'] += fo['stats']['evaluations']
+                fuzz_summary['distinct_nontrivial'] += fo['stats']['distinct_nontrivial']
+                if fo['stats']['samples'] and len(fuzz_summary['samples']) < 3:
+                    fuzz_summary['samples'].append({'configuration': c['name'], 'program': fo['stats']['samples'][0]})
+            if fo['rc'] != 0 and fo['replay']:
+                # confirm with the rapidcheck binary of the same configuration (engine-independent replay format)
+                cb, clog = b.config_bin(c)
+                fails, code = 0, None
+                for _ in range(3):
+                    verdict, cd, out = replay_once(cb, fo['replay'], guards)
+                    if verdict != 'pass':
+                        fails += 1
+                        code = cd
+                if fails == 3:
+                    violations.append((c['name'] + ' (libFuzzer)', code, save_violation_replay(pid, fo['replay'])))
+                else:
+                    print('FLAKY-NOT-REPORTED: libFuzzer finding on %s replayed %d/3' % (c['name'], fails))
+            elif fo['rc'] != 0:
+                print('NOTE: libFuzzer campaign %s ended with rc=%s without a crash-/leak- artifact (load noise): %s' % (fo['name'], fo['rc'], fo['tail'][-300:].replace('\n', ' ')))
+
     # aggregate
     ev = {'evaluations': 0, 'distinct_nontrivial': 0, 'rule': rule, 'samples': [], 'configurations': len(runnable),
           'ops_executed': 0, 'ops_skipped': 0, 'ops_repaired': 0, 'steered_away_from_known_findings': 0, 'oracle_checks': 0,
@@ -379,6 +494,10 @@ def run_history_property(pid, tier, seed, rule, level='exploration', extra_cov=N
         ev['categories'][cat] = ev['categories'].get(cat, 0) + s['evaluations']
         if s['samples'] and len(ev['samples']) < 5:
             ev['samples'].append({'configuration': s['descr'], 'program': s['samples'][0]})
+    if fuzz_summary:
+        ev['second_engine'] = fuzz_summary
+        ev['evaluations'] += fuzz_summary['executions']
+        ev['distinct_nontrivial'] += fuzz_summary['distinct_nontrivial']
     if extra_cov:
         ev.update(extra_cov)
     if not ev['samples']:
